@@ -61,10 +61,43 @@ fn close_s(x: f32, y: f64, rel: f64, s: f64) -> bool {
     x.is_finite() && (f64::from(x) / s - y / s).abs() <= rel * (y / s).abs().max(1.0)
 }
 
-/// Entries equal to `f32::MAX` stand for +infinity (JSON has no infinite numbers); the others are scaled.
+/// Entries equal to `f32::MAX` stand for +infinity, entries equal to `f32::MIN` for -infinity (JSON has no
+/// infinite numbers); the others are scaled.
 fn scaled(data: &[f32], scale_exp: i8) -> (Vec<f32>, f64) {
     let s = 10f64.powi(i32::from(scale_exp));
-    (data.iter().map(|v| if *v == f32::MAX { f32::INFINITY } else { (f64::from(*v) * s) as f32 }).collect(), s)
+    let one = |v: &f32| {
+        if *v == f32::MAX {
+            f32::INFINITY
+        } else if *v == f32::MIN {
+            f32::NEG_INFINITY
+        } else {
+            (f64::from(*v) * s) as f32
+        }
+    };
+    (data.iter().map(one).collect(), s)
+}
+
+/// One case in four has scores of -infinity instead of +infinity (the logarithm of an overlap of zero; never both
+/// in one case: their sum has no value), in half of these a whole row or column of the matrix / every score of
+/// one term is -infinity.
+fn with_negative_infinity(data: &mut [f32], rows: usize, cols: usize, sel: u16) {
+    if sel % 4 != 0 {
+        return;
+    }
+    for v in data.iter_mut() {
+        if *v == f32::MAX {
+            *v = f32::MIN;
+        }
+    }
+    if rows == 0 || cols == 0 {
+        return;
+    }
+    let k = (sel / 16) as usize;
+    match (sel / 4) % 4 {
+        0 => (0..cols).for_each(|j| data[(k % rows) * cols + j] = f32::MIN),
+        1 => (0..rows).for_each(|i| data[i * cols + k % cols] = f32::MIN),
+        _ => {}
+    }
 }
 
 thread_local! {
@@ -306,8 +339,15 @@ pub fn check(c: &Case, stats: &mut Stats) -> CheckResult {
     match c {
         Case::Matrix { rows, cols, data, scale_exp } => {
             let (d, s) = scaled(data, *scale_exp);
-            if d.iter().take(rows * cols).any(|v| v.is_infinite()) {
+            if d.iter().take(rows * cols).any(|v| *v == f32::INFINITY) {
                 stats.label("infinite-score");
+            }
+            if d.iter().take(rows * cols).any(|v| *v == f32::NEG_INFINITY) {
+                stats.label("negative-infinite-score");
+                ensure!(!d.contains(&f32::INFINITY), "harness/bad-case", "+inf and -inf in one matrix");
+                if (0..*rows).any(|i| (0..*cols).all(|j| d[i * cols + j] == f32::NEG_INFINITY)) || (0..*cols).any(|j| (0..*rows).all(|i| d[i * cols + j] == f32::NEG_INFINITY)) {
+                    stats.label("row-or-column-of-negative-infinity");
+                }
             }
             if *scale_exp != 0 {
                 stats.label(if *scale_exp > 0 { "magnitude:huge" } else { "magnitude:tiny" });
@@ -317,6 +357,7 @@ pub fn check(c: &Case, stats: &mut Stats) -> CheckResult {
         Case::IntMatrix { rows, cols } => check_int_matrix(*rows, *cols, stats),
         Case::Sets { table, pairs, scale_exp } => {
             let (t, s) = scaled(table, *scale_exp);
+            ensure!(!(t.contains(&f32::INFINITY) && t.contains(&f32::NEG_INFINITY)), "harness/bad-case", "+inf and -inf in one table");
             if *scale_exp != 0 {
                 stats.label(if *scale_exp > 0 { "magnitude:huge" } else { "magnitude:tiny" });
             }
@@ -345,11 +386,22 @@ fn strategy() -> BoxedStrategy<Case> {
     let matrix = (prop_oneof![8 => (0usize..=8, 0usize..=8), 1 => Just((1usize, 40usize)), 1 => Just((40usize, 1usize))], vec(value(), 64), vec(any::<u16>(), 64), scale())
         .prop_map(|((rows, cols), vals, picks, scale_exp)| {
             // few distinct values per matrix → duplicates / ties among maxima
-            let data = (0..rows * cols).map(|i| vals[pick(picks[i % 64], 1 + (i % 7))]).collect();
+            let mut data: Vec<f32> = (0..rows * cols).map(|i| vals[pick(picks[i % 64], 1 + (i % 7))]).collect();
+            with_negative_infinity(&mut data, rows, cols, picks[63]);
             Case::Matrix { rows, cols, data, scale_exp }
         });
     let int_matrix = (0usize..=9, 0usize..=9).prop_map(|(rows, cols)| Case::IntMatrix { rows, cols });
     let sets = (vec(value(), NT * NT), any::<bool>(), vec((prop_oneof![12 => vec(any::<u8>(), 0..=8), 1 => vec(any::<u8>(), 40..=90)], prop_oneof![12 => vec(any::<u8>(), 0..=8), 1 => vec(any::<u8>(), 40..=90)]), 1..=6), scale()).prop_map(|(mut table, symmetric, pairs, scale_exp)| {
+        // (the selector is derived from the generated sets; a term whose scores are all -infinity gets them in both directions)
+        let sel = pairs.iter().flat_map(|(a, b)| a.iter().chain(b.iter())).fold(pairs.len() as u16, |h, x| h.wrapping_mul(31).wrapping_add(u16::from(*x)));
+        with_negative_infinity(&mut table, NT, NT, sel);
+        if sel % 4 == 0 && (sel / 4) % 4 < 2 {
+            let k = (sel / 16) as usize % NT;
+            for i in 0..NT {
+                table[i * NT + k] = f32::MIN;
+                table[k * NT + i] = f32::MIN;
+            }
+        }
         if symmetric {
             for i in 0..NT {
                 for j in 0..i {
@@ -445,10 +497,10 @@ impl Property for C05 {
         "C05"
     }
     fn rule(&self) -> String {
-        "Generated: (a) raw r x c matrices, r,c in 0..=8 plus 1x40 and 40x1, f32 entries (finite, occasionally +infinity) drawn from few values per matrix (ties among maxima), one case in six scaled by 10^e, e in -36..=33 (compared after dividing by the scale), through StandardCombiner::{FunSimAvg,FunSimMax,Bma}::calculate; integer matrices for rows()/cols()/dim()/len() against index arithmetic; (b) on a flat 40-term ontology: sequences of 1-6 pairs of term sets (sizes 0..=8, occasionally 31-40 members) and a user-supplied Similarity that looks pairs up in a generated 40x40 table (asymmetric or symmetrised), through GroupSimilarity::calculate and HpoSet::similarity; (c) the same sequence through one CachedSimilarity per combiner (second visit, transposed pair), every set also compared with itself as the same object on both sides, and term-level (a,b),(b,a),(a,b); (d) fixed-size sweeps on a flat 4200-term ontology with an asymmetric similarity that is a function of the two ids: both sets long, or one long set against a short one in both orders, with sizes across 128 / 256 / 1024 / 2048 / 4096 (quick up to 4097 x 1, thorough up to 2050 x 1500). Oracle: the three definitions evaluated in f64 on M[i][j] = T[A_i][B_j] (ascending ids), tolerance 1e-4; 0 for an empty side; argument-order independence for symmetric tables (1e-6); cached results bit-identical to uncached. evaluations = combiner evaluations. Non-trivial = non-square non-empty matrix whose row-max mean differs from its column-max mean, or a set pair of unequal non-zero sizes; distinct by hash of the case.".into()
+        "Generated: (a) raw r x c matrices, r,c in 0..=8 plus 1x40 and 40x1, f32 entries (finite, occasionally +infinity; in one case of four -infinity instead, in half of those a whole row or column / every score of one term) drawn from few values per matrix (ties among maxima), one case in six scaled by 10^e, e in -36..=33 (compared after dividing by the scale), through StandardCombiner::{FunSimAvg,FunSimMax,Bma}::calculate; integer matrices for rows()/cols()/dim()/len() against index arithmetic; (b) on a flat 40-term ontology: sequences of 1-6 pairs of term sets (sizes 0..=8, occasionally 31-40 members) and a user-supplied Similarity that looks pairs up in a generated 40x40 table (asymmetric or symmetrised), through GroupSimilarity::calculate and HpoSet::similarity; (c) the same sequence through one CachedSimilarity per combiner (second visit, transposed pair), every set also compared with itself as the same object on both sides, and term-level (a,b),(b,a),(a,b); (d) fixed-size sweeps on a flat 4200-term ontology with an asymmetric similarity that is a function of the two ids: both sets long, or one long set against a short one in both orders, with sizes across 128 / 256 / 1024 / 2048 / 4096 (quick up to 4097 x 1, thorough up to 2050 x 1500). Oracle: the three definitions evaluated in f64 on M[i][j] = T[A_i][B_j] (ascending ids), tolerance 1e-4; 0 for an empty side; argument-order independence for symmetric tables (1e-6); cached results bit-identical to uncached. evaluations = combiner evaluations. Non-trivial = non-square non-empty matrix whose row-max mean differs from its column-max mean, or a set pair of unequal non-zero sizes; distinct by hash of the case.".into()
     }
     fn assumptions(&self) -> Vec<String> {
-        vec!["term similarities are finite or +infinity (NaN and -infinity are outside the domain: maxima are taken with '>' and inf - inf has no value)".into(), "f32 sums compared with f64 reference within 1e-4 relative".into()]
+        vec!["term similarities are finite, +infinity or -infinity, the two infinities never within one matrix (NaN is outside the domain: maxima are taken with '>', and inf - inf has no value)".into(), "f32 sums compared with f64 reference within 1e-4 relative".into()]
     }
     fn cases(&self, tier: Tier) -> u64 {
         match tier {
@@ -457,7 +509,7 @@ impl Property for C05 {
         }
     }
     fn required_labels(&self, _tier: Tier) -> Vec<&'static str> {
-        vec!["nontrivial", "matrix:rect-row!=col-means", "matrix:empty", "matrix:1x40", "int-matrix", "sets:unequal-sizes", "sets:empty", "sets:more-than-30-members", "sets:symmetric-table", "sets:asymmetric-table", "sets:cache-reused-over-several-pairs", "sets:same-object-asymmetric-table", "magnitude:huge", "magnitude:tiny", "sets:more-than-128-members", "sets:more-than-255-members", "sets:more-than-1024-members-unequal-sizes", "infinite-score"]
+        vec!["nontrivial", "matrix:rect-row!=col-means", "matrix:empty", "matrix:1x40", "int-matrix", "sets:unequal-sizes", "sets:empty", "sets:more-than-30-members", "sets:symmetric-table", "sets:asymmetric-table", "sets:cache-reused-over-several-pairs", "sets:same-object-asymmetric-table", "magnitude:huge", "magnitude:tiny", "sets:more-than-128-members", "sets:more-than-255-members", "sets:more-than-1024-members-unequal-sizes", "infinite-score", "negative-infinite-score", "row-or-column-of-negative-infinity"]
     }
     fn run_generated(&self, _tier: Tier, seed: u64, n: u64, stats: &mut Stats) -> Option<(Value, Failure)> {
         run_typed(strategy(), seed, n, stats, check)
